@@ -120,7 +120,9 @@ class C20(Prop):
             "without the lock (class K2) anomalies are reported as known finding. Non-trivial = at least one delivery.")
     level_text = ("Theorems over Model/Threads.v: C20_overlap_refuted (overlapping brackets give an execution equal to no serial order), "
                   "C20_nonoverlap_serial (whole non-overlapping transactions compose sequentially). Tie: deterministic schedule replay on "
-                  "the real library equals the model step by step; locked stress test. The property itself FAILS on the unchanged tree "
+                  "the real library (closure brackets, and scoped transactions opened by one thread and closed by the other) equals the "
+                  "model step by step - for schedules whose brackets do not overlap the model is the serial specification, a difference "
+                  "is a failing input; locked stress test. The property itself FAILS on the unchanged tree "
                   "(known finding K2: no transaction lock). PARTIAL: data races on collector state are outside the model.")
     assumptions = ["schedule replay hands a token between two OS threads; each step acknowledged before the next starts",
                    "stress results depend on the scheduler; the locked variant must be exact on every run"]
